@@ -44,7 +44,8 @@ Put == /\ Ev.t = "put"
           THEN /\ AbsPut(Ev.k, [id |-> Ev.id, sz |-> Ev.sz, ttl |-> Ev.ttl, ts |-> Ev.ts])
                /\ IF Want("C11") /\ ~Fitting(Ev.sz) THEN Fail("put of an entry that cannot fit was acknowledged") ELSE Ok
           ELSE /\ UNCHANGED <<m, d>>
-               /\ IF Want("C11") /\ (Fitting(Ev.sz) \/ Ev.err # "toolarge")
+               \* refusals that are in order: an entry that fits no table; a key whose length one byte cannot hold
+               /\ IF Want("C11") /\ ~(Ev.err = "toolarge" /\ ~Fitting(Ev.sz)) /\ ~(Ev.err = "keytoolarge" /\ Ev.klen > 255)
                   THEN Fail("put failed: " \o Ev.err) ELSE Ok
        \* bytes written since the last completed compaction (C20, stores that keep recycled tables)
        /\ cstreak' = 0 /\ compacted' = FALSE
@@ -76,6 +77,7 @@ Compact == /\ Ev.t = "compact" /\ AbsCompact
                  ELSE Ok
 
 ArrKeys == {Ev.arr[j].k : j \in 1..Len(Ev.arr)}
+StoredKeys == {Ev.arr[j].k : j \in {jj \in 1..Len(Ev.arr) : Ev.arr[jj].ok}}
 Xfer == /\ Ev.t = "xfer"
         /\ IF Ev.err = "eof"
            THEN /\ UNCHANGED <<m, d>>
@@ -85,7 +87,15 @@ Xfer == /\ Ev.t = "xfer"
                          a.id # m[a.k].id \/ a.ttl # m[a.k].ttl \/ a.ts # m[a.k].ts
                 THEN /\ UNCHANGED <<m, d>>
                      /\ IF Want("C11") THEN Fail("exported table carries a stale, absent or duplicate entry") ELSE Ok
-                ELSE AbsTransfer(ArrKeys) /\ Ok
+                ELSE IF Ev.err = "ok"
+                     THEN \* the import succeeded and the sender has dropped its table
+                          IF StoredKeys = ArrKeys THEN AbsTransfer(ArrKeys) /\ Ok
+                          ELSE /\ UNCHANGED <<m, d>>
+                               /\ IF Want("C11") THEN Fail("import reported success although the receiver could not store an entry: the sender drops a table that has not arrived")
+                                  ELSE Ok
+                     ELSE \* the import failed, the sender keeps its table
+                          /\ AbsCopy(StoredKeys)
+                          /\ IF Want("C11") /\ StoredKeys = ArrKeys THEN Fail("import failed although every entry was stored: " \o Ev.err) ELSE Ok
         /\ cstreak' = 0 /\ compacted' = FALSE /\ UNCHANGED meta
 
 \* ---- the read-back ------------------------------------------------------
